@@ -362,6 +362,83 @@ def c08_same_name_templates(layout: int, order: int, where: int) -> bool:
     return ok
 
 
+# ---------------------------------------------------------------- the SAME typedef name in namespaces with the same leaf name
+ALIAS_LAYOUTS = [(("x", "detail"), ("y", "detail")), (("a", "detail"), ("b", "c", "detail")), (("p", "q", "r"), ("r",)), (("m", "n"), ("n", "m", "n"))]
+
+
+def build_same_alias(layout, kind, with_first=True, with_second=True):
+    """two typedefs, both called Alias, in two namespaces whose innermost names are equal, each naming a template of its own
+    outermost namespace; kind 0 class templates, 1 function templates, 2 forward-declared foreign templates"""
+    n1, n2 = ALIAS_LAYOUTS[layout]
+    out, want = [], {}
+    for which, (path, on) in enumerate(((n1, with_first), (n2, with_second))):
+        if not on:
+            continue
+        root = path[0] + ("" if which == 0 else "2") if path[0] == (n1, n2)[1 - which][0] else path[0]
+        path = (root,) + tuple(path[1:])
+        tname = ("Box", "Bag")[which]
+        arg = ("double", "int")[which]
+        if kind == 0:
+            tmpl = ["template<T> class Box { Box(T a); T first() const; };", "template<T> class Bag { Bag(); void second(T b) const; static int Count(); };"][which]
+            cpp = "%s::%s<%s>" % (root, tname, arg)
+        elif kind == 1:
+            tmpl = ["template<T> T Box(T a);", "template<T> void Bag(T a, T b);"][which]
+            cpp = "%s<%s>" % (tname, arg)
+        else:
+            tmpl = "class %s;" % tname
+            cpp = "%s::%s<%s>" % (root, tname, arg)
+        inner = "typedef %s::%s<%s> Alias;" % (root, tname, arg)
+        for nsn in reversed(path[1:]):
+            inner = "namespace %s { %s }" % (nsn, inner)
+        out.append("namespace %s { %s %s }" % (root, tmpl, inner))
+        want["::".join(path)] = (cpp, [["first"], ["second"]][which] if kind == 0 else None, (2 if which else 1) if kind == 1 else None)
+    return "\n".join(out), want
+
+
+def same_alias_results(text):
+    mod = ti.instantiate_namespace(parser.Module.parseString(text))
+    res = {}
+
+    def visit(ns, path):
+        for e in ns.content:
+            if isinstance(e, parser.Namespace):
+                visit(e, path + [e.name])
+            elif getattr(e, "name", None) == "Alias":
+                res["::".join(path)] = (e.to_cpp(), [m.name for m in e.methods] if isinstance(e, ti.InstantiatedClass) else None,
+                                        len(e.args.list()) if isinstance(e, ti.InstantiatedGlobalFunction) else None)
+    visit(mod, [])
+    return res
+
+
+def c08_same_alias(layout: int, kind: int) -> bool:
+    """
+    Two typedefs with the SAME name in two namespaces whose innermost names are equal (`x::detail::Alias`,
+    `y::detail::Alias`; deeper and suffix-related paths), naming different class / function / foreign templates: each
+    yields the instantiation of the template it names, and each is what it is without the other (C13's independence).
+    pre: 0 <= layout < len(ALIAS_LAYOUTS) and 0 <= kind <= 2
+    post: _
+    """
+    layout, kind = pick(layout, 0, len(ALIAS_LAYOUTS)), pick(kind, 0, 3)
+    with concrete():
+        problems = []
+        try:
+            text, want = build_same_alias(layout, kind)
+            got = same_alias_results(text)
+            if got != want:
+                problems.append("instantiations %r, the typedefs name %r" % (got, want))
+            for kw in (dict(with_second=False), dict(with_first=False)):
+                t1, w1 = build_same_alias(layout, kind, **kw)
+                g1 = same_alias_results(t1)
+                for k, v in g1.items():
+                    if got.get(k) != v:
+                        problems.append("%s::Alias is %r alone and %r next to the other typedef" % (k, v, got.get(k)))
+        except Exception as ex:
+            problems.append("raised %r" % ex)
+        ok = not problems or _fail(text=build_same_alias(layout, kind)[0], problems=problems[:4])
+    reached({"layout": layout, "kind": kind})
+    return ok
+
+
 TID_LISTS = [
     (["std::vector<double>", "std::vector<int>"], ["Vectordouble", "Vectorint"]),
     (["ns::Cam<ns::CalA>", "ns::Cam<ns::CalB>", "ns::A"], ["CamCalA", "CamCalB", "A"]),
@@ -415,6 +492,8 @@ def conds(tier):
                 bounds="%d instantiation lists with shared outer names x class | function template x namespace depth 0-2" % len(TID_LISTS)),
         xh.Cond(M, "c08_same_name_templates", t(120, 600), kind="shape-bounded", examples=["layout=0, order=0, where=0", "layout=1, order=0, where=1", "layout=2, order=1, where=1", "layout=4, order=1, where=2"],
                 bounds="%d namespace layouts x 2 typedef orders x 3 places of the typedef block" % len(SAME_LAYOUTS)),
+        xh.Cond(M, "c08_same_alias", t(120, 400), kind="shape-bounded", examples=["layout=0, kind=0", "layout=1, kind=1", "layout=2, kind=2", "layout=3, kind=0"],
+                bounds="%d pairs of namespace paths with equal innermost names x class / function / foreign template; together and alone" % len(ALIAS_LAYOUTS)),
         xh.Cond(M, "c08_typedef_outside", t(120, 600), kind="shape-bounded", examples=["kind=0, nsdepth=2, p=1, extra=0", "kind=1, nsdepth=1, p=1, extra=0", "kind=0, nsdepth=3, p=2, extra=3"],
                 bounds="class template / foreign template x namespace depth 1-3 x 1-2 parameters x 4 contents of the template's namespace"),
     ]
